@@ -442,7 +442,7 @@ func init() {
 		if t.db.closed {
 			panic(targetPanic{badgerErr(fr.i, "ErrDBClosed")})
 		}
-		ot := fr.fn.Signature.Params().At(1).Type()
+		ot := fr.fn.Signature.Params().At(0).Type()
 		o := args[1].(structure)
 		it := &kvIter{txn: t}
 		it.reverse = o[fieldIndex(ot, "Reverse")].(bool)
